@@ -1079,6 +1079,7 @@ func runC10(o *Out, rng *RNG, tier string, replay string) {
 		c10RunProgram(o, ops, shape, true, true)
 	}
 	c10Exhaustive(o, exh, every)
+	c10GoatAppProbe(o)
 	// harness self-check: generator distribution
 	req := o.Stats["req_ok"] + o.Stats["req_err"]
 	if req > 0 && o.Stats["req_err"]*100/req > 60 {
